@@ -283,4 +283,114 @@ theorem good_all (c : Cfg) (hN : 2 ≤ c.N) : ∀ e, wf c e = true → Good c e 
     have := good_paren c (.tern x t e) (by omega) hU' rest
     simpa using this
 
+/-! ### fuel is only fuel -/
+
+/-- fuel is only fuel: a run that does not run out of fuel gives the same result with one more unit -/
+theorem run_succ (c : Cfg) : ∀ (f : Nat) (job : Job), run c f job ≠ .fuel → run c (f + 1) job = run c f job := by
+  intro f
+  induction f with
+  | zero => intro job h; simp [run] at h
+  | succ f ih =>
+    intro job h
+    cases job with
+    | level l ts =>
+      simp only [run] at h
+      conv => lhs; unfold run
+      conv => rhs; unfold run
+      by_cases hl : c.N ≤ l
+      · simp only [hl, if_true] at h ⊢
+        match ts with
+        | [] => rfl
+        | .atom n :: r => rfl
+        | .rp :: r => rfl
+        | .q :: r => rfl
+        | .colon :: r => rfl
+        | .asg _ :: r => rfl
+        | .lp :: r =>
+          simp only at h ⊢
+          by_cases hr : run c f (.level 0 r) = .fuel
+          · simp [hr] at h
+          · rw [ih _ hr]
+        | .sym s :: r =>
+          simp only at h ⊢
+          by_cases hp : c.pfx s = true
+          · simp only [hp, if_true] at h ⊢
+            by_cases hr : run c f (.level c.N r) = .fuel
+            · simp [hr] at h
+            · rw [ih _ hr]
+          · simp [hp]
+      · simp only [hl, if_false] at h ⊢
+        by_cases hr : run c f (.level (l + 1) ts) = .fuel
+        · simp [hr] at h
+        · rw [ih _ hr]
+          match hx : run c f (.level (l + 1) ts) with
+          | .ok x r' =>
+            simp only [hx] at h ⊢
+            exact ih _ h
+          | .nomatch => rfl
+          | .error => rfl
+          | .fuel => exact absurd hx hr
+    | loop l x ts =>
+      simp only [run] at h
+      conv => lhs; unfold run
+      conv => rhs; unfold run
+      match ts with
+      | [] => rfl
+      | .atom n :: r => rfl
+      | .rp :: r => rfl
+      | .lp :: r => rfl
+      | .colon :: r => rfl
+      | .asg _ :: r => rfl
+      | .q :: r =>
+        simp only at h ⊢
+        by_cases hl : l = 0
+        · simp only [hl, if_true] at h ⊢
+          by_cases hr : run c f (.level 1 r) = .fuel
+          · simp [hr] at h
+          · rw [ih _ hr]
+            match hx : run c f (.level 1 r) with
+            | .ok t (.colon :: r') =>
+              simp only [hx] at h ⊢
+              by_cases hr2 : run c f (.level 0 r') = .fuel
+              · simp [hr2] at h
+              · rw [ih _ hr2]
+                match hy : run c f (.level 0 r') with
+                | .ok e r'' => simp only [hy] at h ⊢; exact ih _ h
+                | .nomatch => rfl
+                | .error => rfl
+                | .fuel => exact absurd hy hr2
+            | .ok t [] => rfl
+            | .ok t (.atom _ :: _) => rfl
+            | .ok t (.sym _ :: _) => rfl
+            | .ok t (.lp :: _) => rfl
+            | .ok t (.rp :: _) => rfl
+            | .ok t (.q :: _) => rfl
+            | .ok t (.asg _ :: _) => rfl
+            | .nomatch => rfl
+            | .error => rfl
+            | .fuel => exact absurd hx hr
+        · simp only [hl, if_false]
+      | .sym s :: r =>
+        simp only at h ⊢
+        by_cases hb : c.bin s = some l ∧ l ≠ 0
+        · rw [if_pos hb] at h
+          rw [if_pos hb, if_pos hb]
+          by_cases hr : run c f (.level (l + 1) r) = .fuel
+          · simp [hr] at h
+          · rw [ih _ hr]
+            match hx : run c f (.level (l + 1) r) with
+            | .ok y r' => simp only [hx] at h ⊢; exact ih _ h
+            | .nomatch => rfl
+            | .error => rfl
+            | .fuel => exact absurd hx hr
+        · rw [if_neg hb, if_neg hb]
+
+theorem run_le (c : Cfg) (f : Nat) (job : Job) (h : run c f job ≠ .fuel) : ∀ k, run c (f + k) job = run c f job := by
+  intro k
+  induction k with
+  | zero => rfl
+  | succ k ih =>
+    have : run c (f + k) job ≠ .fuel := by rw [ih]; exact h
+    rw [← Nat.add_assoc, run_succ c (f + k) job this, ih]
+
 end ChaiVerif.Prec
